@@ -1224,7 +1224,7 @@ Proof.
   assert (Hok : Forall (op_ok N true) C16_example_ops).
   { unfold C16_example_ops.
     repeat (apply Forall_cons;
-            [vm_compute; try exact I; split; [reflexivity|discriminate]|]).
+            [vm_compute; first [exact I | split; [reflexivity|discriminate]]|]).
     apply Forall_nil. }
   split; [exact Hok|].
   destruct (ld_run N N.eqb (ld_empty true) C16_example_ops) as [s|e] eqn:Hrun.
